@@ -309,6 +309,87 @@ pub fn eval_prop(c: &PropCase) -> CaseOut {
     })
 }
 
+/// A property whose string / binary value is too long to be encoded (more than 65535 bytes), in a transmit buffer
+/// that would hold it: the request is invalid, not too big for the buffer.
+#[derive(Clone, Debug, Serialize, Deserialize)]
+pub struct LongCase {
+    pub ctx: u8,
+    pub id: u8,
+    /// for a user property: 0 = the key is too long, 1 = the value
+    pub part: u8,
+    pub len: usize,
+    pub state: u8,
+}
+
+pub fn eval_long(c: &LongCase) -> CaseOut {
+    guarded("C19", || {
+        let mut viol = Vec::new();
+        let long = vec![b'L'; c.len];
+        let val = match mr::prop_type(c.id as u32).unwrap() {
+            PType::Str => PVal::Str(long),
+            PType::Bin => PVal::Bin(long),
+            PType::Pair if c.part == 0 => PVal::Pair(long, b"v".to_vec()),
+            PType::Pair => PVal::Pair(b"k".to_vec(), long),
+            _ => panic!("machinery: not a string-valued property"),
+        };
+        let under_test = Prop { id: c.id, val };
+        let legal_value = c.len <= 65535;
+        let w = if legal_value { want(c.ctx, &Prop { id: c.id, val: PVal::Str(vec![]) }) } else { Want::Reject };
+        let ctxn = CTX_NAMES[c.ctx as usize];
+        let pname = format!("{}-prop{:02x}-{}-bytes", ctxn, c.id, if c.len > 65535 { "more-than-65535" } else { "65535" });
+        let spec = Spec::plain(64, 140_000);
+        let props_ref = vec![under_test.clone()];
+        let out = with_session(&spec, |bench, s| {
+            let Conn::Ok(mut conn, id) = connect(bench, s, &connack(false, vec![])) else { return None };
+            let handles = prepare(bench, &mut conn, id, c.state);
+            let before = snapshot(&conn, &handles);
+            let wrote_before = bench.written(id).len();
+            let props = props_of(&props_ref);
+            let r: Result<(), Res> = match c.ctx {
+                0 => bench.run(conn.publish(Publication::bytes("t", b"zz").qos(QoS::AtLeastOnce).properties(&props)), id).map(|r| r.map(|_| ()).map_err(|e| Res::from_pub(&e))).unwrap_or(Err(Res::Cancelled)),
+                1 => bench.run(conn.subscribe(&[TopicFilter::new("g")], &props), id).map(|r| r.map(|_| ()).map_err(|e| Res::from_err(&e))).unwrap_or(Err(Res::Cancelled)),
+                2 => bench.run(conn.unsubscribe(&["g"], &props), id).map(|r| r.map(|_| ()).map_err(|e| Res::from_err(&e))).unwrap_or(Err(Res::Cancelled)),
+                _ => bench.run(conn.disconnect_with(Disconnect::success().with_properties(&props)), id).map(|r| r.map_err(|e| Res::from_err(&e))).unwrap_or(Err(Res::Cancelled)),
+            };
+            let after = snapshot(&conn, &handles);
+            Some((r, before, after, bench.written(id)[wrote_before..].len()))
+        });
+        let Built::Ran(Some((r, before, after, sent))) = out else { panic!("machinery: setup failed") };
+        let class;
+        match (&r, w) {
+            (Err(Res::InvalidRequest), Want::Accept) => {
+                class = 1;
+                flag(&mut viol, "legal-property-refused", &pname, format!("a {}-byte value is legal for property {:#04x} on {} but the request was refused as invalid", c.len, c.id, ctxn));
+            }
+            (Err(Res::InvalidRequest), _) => class = 2,
+            (Ok(()), Want::Reject) => {
+                class = 3;
+                flag(&mut viol, "illegal-property-accepted", &pname, format!("{} accepted property {:#04x} with a {}-byte value ({} bytes written)", ctxn, c.id, c.len, sent));
+            }
+            (Ok(()), _) => class = 4,
+            (Err(e), Want::Reject) => {
+                class = 5;
+                flag(&mut viol, "wrong-error", &pname, format!("{} with property {:#04x} carrying a {}-byte value (cannot be encoded; the 140000-byte transmit buffer would hold it) fails with {:?}, not with the invalid-request error", ctxn, c.id, c.len, e));
+            }
+            (Err(e), _) => {
+                class = 6;
+                if *e == Res::BufferTooSmall && w == Want::Accept {
+                    flag(&mut viol, "legal-property-refused", &pname, format!("{} with the legal {}-byte value fails with BufferTooSmall in a 140000-byte transmit buffer", ctxn, c.len));
+                }
+            }
+        }
+        if r.is_err() {
+            if sent != 0 {
+                flag(&mut viol, "refused-but-sent", &pname, format!("refused {} wrote {} bytes", ctxn, sent));
+            }
+            if before != after && c.ctx != 3 {
+                flag(&mut viol, "refused-leaves-trace", &pname, format!("refused {} changed session state: {:?} -> {:?}", ctxn, before, after));
+            }
+        }
+        CaseOut { class: hash_of(&(c.ctx, class)), viol }
+    })
+}
+
 #[derive(Clone, Debug, Serialize, Deserialize)]
 pub struct EmptyCase {
     pub unsubscribe: bool,
@@ -567,6 +648,34 @@ pub fn run(tier: Tier, caps: &Caps) -> Vec<FamilyReport> {
         &|i| eval_prop(&pc[i as usize]),
         &|i| serde_json::to_value(&pc[i as usize]).unwrap(),
     ));
+    let mut lc = Vec::new();
+    for ctx in 0..4u8 {
+        for id in ALL_PROP_IDS {
+            let ty = mr::prop_type(id as u32).unwrap();
+            if !matches!(ty, PType::Str | PType::Bin | PType::Pair) {
+                continue;
+            }
+            for part in 0..2u8 {
+                if part == 1 && ty != PType::Pair {
+                    continue;
+                }
+                for len in [65535usize, 65536, 70000] {
+                    for state in [0u8, 1] {
+                        lc.push(LongCase { ctx, id, part, len, state });
+                    }
+                }
+            }
+        }
+    }
+    out.push(sweep(
+        "C19-values-too-long-to-encode",
+        "C19",
+        lc.len() as u64,
+        caps,
+        json!({"cases": lc.len(), "dimensions": "every string-, binary- and pair-valued property kind x {publish, subscribe, unsubscribe, disconnect} x value length {65535 (the longest legal one), 65536, 70000} (key and value of a user property separately) x session state {fresh, requests in flight}, in a 140000-byte transmit buffer: more than 65535 bytes cannot be encoded and is refused as an invalid request, not as a buffer shortage"}),
+        &|i| eval_long(&lc[i as usize]),
+        &|i| serde_json::to_value(&lc[i as usize]).unwrap(),
+    ));
     let mut ec = Vec::new();
     for unsubscribe in [false, true] {
         for state in 0..4u8 {
@@ -625,6 +734,7 @@ pub fn replay(name: &str, case: &Value) -> Option<CaseOut> {
     Some(match name {
         "C19-downgrade-and-replay" => eval_qos_replay(&serde_json::from_value(case.clone()).ok()?),
         "C19-every-property-in-every-context" => eval_prop(&serde_json::from_value(case.clone()).ok()?),
+        "C19-values-too-long-to-encode" => eval_long(&serde_json::from_value(case.clone()).ok()?),
         "C19-empty-filter-lists" => eval_empty(&serde_json::from_value(case.clone()).ok()?),
         "C19-maximum-qos-and-downgrade" => eval_qos(&serde_json::from_value(case.clone()).ok()?),
         _ => return None,
